@@ -14,7 +14,9 @@ package retransmission
 
 import (
 	"fmt"
+	"runtime"
 	"sync"
+	"sync/atomic"
 	"testing"
 	"time"
 
@@ -50,7 +52,8 @@ func TestVerif_C16_Filter(t *testing.T) {
 	defer rep.Write(t)
 	tr := kit.NewTracer(t, "trace_filter")
 	defer tr.Close()
-	rounds := kit.IntEnv("VERIF_FILTER_ROUNDS", 60)
+	rounds := kit.IntEnv("VERIF_FILTER_ROUNDS", 600)
+	traced := kit.IntEnv("VERIF_FILTER_TRACED", 60) // rounds recorded for trace validation; all are checked directly
 	rnd := kit.Rand(1616)
 	procs := []string{"p1", "p2", "p3", "p4", "p5", "p6"}
 	type key struct {
@@ -60,14 +63,21 @@ func TestVerif_C16_Filter(t *testing.T) {
 	keys := []key{{"s1", 1}, {"s1", 2}, {"s2", 1}, {"s2", 2}}
 
 	for round := 0; round < rounds; round++ {
-		tr.Reset(nil)
+		emit := func(ev map[string]interface{}) {
+			if round < traced {
+				tr.Emit(ev)
+			}
+		}
+		if round < traced {
+			tr.Reset(nil)
+		}
 		var mu sync.Mutex
 		delegated := map[string]int{}
 		called := map[string]bool{}
 		wrapped := WithRetransmissionSupport(func(m net.Message) {
 			fm := m.(*c16FilterMsg)
 			k := fmt.Sprintf("%s:%d", fm.sender, fm.seqno)
-			tr.Emit(map[string]interface{}{"event": "Delegate", "p": fm.proc, "k": k})
+			emit(map[string]interface{}{"event": "Delegate", "p": fm.proc, "k": k})
 			mu.Lock()
 			delegated[k]++
 			mu.Unlock()
@@ -78,7 +88,7 @@ func TestVerif_C16_Filter(t *testing.T) {
 			// mostly the same key for everybody (maximal contention), sometimes mixed
 			common := keys[rnd.Intn(len(keys))]
 			var arrived sync.WaitGroup
-			release := make(chan struct{})
+			var release int32 // spun on, so that all callers start within nanoseconds of each other
 			var done sync.WaitGroup
 			for _, p := range procs {
 				k := common
@@ -96,14 +106,18 @@ func TestVerif_C16_Filter(t *testing.T) {
 				msg.hold = func() {
 					once.Do(func() {
 						arrived.Done()
-						<-release
+						for i := 0; atomic.LoadInt32(&release) == 0; i++ {
+							if i%2000 == 1999 {
+								runtime.Gosched()
+							}
+						}
 					})
 				}
 				go func(p string) {
 					defer done.Done()
-					tr.Emit(map[string]interface{}{"event": "Call", "p": p, "k": ks})
+					emit(map[string]interface{}{"event": "Call", "p": p, "k": ks})
 					wrapped(msg)
-					tr.Emit(map[string]interface{}{"event": "Return", "p": p})
+					emit(map[string]interface{}{"event": "Return", "p": p})
 				}(p)
 			}
 			// everybody is inside Seqno(), i.e. just before the filter's mutex
@@ -116,7 +130,7 @@ func TestVerif_C16_Filter(t *testing.T) {
 				// no barrier, the calls still race freely
 				rep.Count("barrier_missed", 1)
 			}
-			close(release)
+			atomic.StoreInt32(&release, 1)
 			done.Wait()
 		}
 		mu.Lock()
